@@ -188,7 +188,7 @@ def record_case(case):
         for i in idxs:
             lab, (cls, kw) = SPEC_LABELS[i]
             sp = getattr(dc, cls, None) or getattr(dc.builtin_specifications, cls)
-            inst = sp(location=dc.Location(a, b, strand), **kw)
+            inst = sp(location=dc.Location(a, b, strand) if strand is not None else dc.Location(a, b), **kw)
             (expected_c if lab.startswith("@") else expected_o).append(inst)
     # a feature that is not a specification must be ignored
     record.features.append(SeqFeature(FeatureLocation(0, 3, 1), type="misc_feature", qualifiers={"label": "my gene"}))
@@ -218,7 +218,10 @@ def record_case(case):
         dc.biotools.write_record(record, path, file_format="genbank")
         np.random.seed(0)
         p_file = dc.DnaOptimizationProblem.from_record(path, logger=None)
-        res["file_same"] = repr(content(p_file)) == repr(content(p_rec)) and p_file.sequence == p_rec.sequence
+        # (the Genbank text format writes an unstranded feature as a..b, which reads back as strand +1:
+        # the file round trip is compared for stranded features only)
+        stranded = all(f[2] is not None for f in feats)
+        res["file_same"] = (not stranded) or (repr(content(p_file)) == repr(content(p_rec)) and p_file.sequence == p_rec.sequence)
         # to_record carries the current sequence
         np.random.seed(0)
         try:
@@ -279,7 +282,9 @@ def gen_cases(rng, tier):
                 idxs = (18,)
             if a + ln > n:
                 a = n - ln
-            feats.append((a, a + ln, rng.choice([1, 1, -1]), idxs))
+            # None = an unstranded feature (Biopython strand None, e.g. SeqFeature(FeatureLocation(a, b))
+            # or an imported annotation without direction): the API equivalent is Location(a, b)
+            feats.append((a, a + ln, rng.choice([1, 1, -1, None]), idxs))
         cases.append(("record", seq, tuple(feats)))
     return cases, {}
 
